@@ -49,7 +49,7 @@ const (
 type cfg struct {
 	fragOn bool
 	ifi    bool // IsIncomingFaceIndicationEnabled + InFace set on the outgoing packet
-	tok    int  // 0 none; 1 packet arrived with a token and leaves with a (different) token; 2 leaves with a token, arrived without; 3 arrived with a token, leaves without
+	tok    int  // 0 none; 1 packet arrived with a token and leaves with a (different) token; 2 leaves with a token, arrived without; 3 arrived with a token, leaves without; 4 arrived with a 6-byte token, leaves with a 32-byte token (tokens are 1..32 bytes, chosen by the downstream)
 	mark   int  // 0 none; 1 upstream congestion mark (value 1); 2 the link service adds its own mark; 3 upstream mark with an 8-byte value
 }
 
@@ -69,6 +69,8 @@ func (c cfg) features() []string {
 		f = append(f, "token:out-only")
 	case 3:
 		f = append(f, "token:in-only")
+	case 4:
+		f = append(f, "token:in+out-32-bytes")
 	}
 	switch c.mark {
 	case 1:
@@ -90,7 +92,7 @@ func (c cfg) String() string {
 
 func allCfgs(base bool) []cfg {
 	var out []cfg
-	toks, marks := []int{0, 1, 2, 3}, []int{0, 1, 2, 3}
+	toks, marks := []int{0, 1, 2, 3, 4}, []int{0, 1, 2, 3}
 	if base {
 		toks, marks = []int{0, 1}, []int{0, 1}
 	}
@@ -297,13 +299,19 @@ var (
 func (p *pair) outPkt(tp *tblPkt, size int) (out dispatch.OutPkt, wantTok []byte, wantMark *uint64, anyMark bool) {
 	pk := &defn.Pkt{Raw: tp.raw, L3: tp.l3}
 	switch p.c.tok {
-	case 1, 3:
+	case 1, 3, 4:
 		pk.PitToken = []byte{0, 7, 0xaa, byte(size >> 8), byte(size), 1}
 	}
 	switch p.c.tok {
 	case 1, 2:
 		// first two bytes 0: the receiver maps the token of a Data packet to forwarding thread 0
 		wantTok = []byte{0, 0, 0x55, byte(size >> 8), byte(size), 2}
+	case 4:
+		wantTok = make([]byte, 32)
+		for i := range wantTok {
+			wantTok[i] = byte(i * 7)
+		}
+		wantTok[2], wantTok[3] = byte(size>>8), byte(size)
 	}
 	switch p.c.mark {
 	case 1:
@@ -322,8 +330,8 @@ func (p *pair) outPkt(tp *tblPkt, size int) (out dispatch.OutPkt, wantTok []byte
 
 type caseStats struct {
 	nCases, nOne, nFrag, nDrop, nFrames int64
-	shapes                             map[int]bool // distinct frame counts >= 2 seen in this row
-	maxExcess                          int
+	shapes                              map[int]bool // distinct frame counts >= 2 seen in this row
+	maxExcess                           int
 }
 
 func hexHead(b []byte, n int) string {
@@ -591,12 +599,17 @@ func main() {
 	if err != nil {
 		report.Fatal("packet builder: %v", err)
 	}
+	for i, a := range os.Args {
+		if a == "--replay" && i+1 < len(os.Args) {
+			os.Exit(replayFile(os.Args[i+1]))
+		}
+	}
 
 	// ---------------- Enumeration A ----------------
 	// Block 1: the property's own dimensions (fragmentation x incoming-face indication x token x
 	// mark = 16 configurations) on the full MTU list of the tier. Block 2: the extended token/mark
 	// variants (token attached only on output / only on input, the link service's own mark, 8-byte
-	// mark value; 48 more configurations) on a smaller MTU list. Rows are MTU-major inside a block
+	// mark value; 64 more configurations) on a smaller MTU list. Rows are MTU-major inside a block
 	// so that a capped run reports a completed MTU prefix.
 	base := allCfgs(true)
 	ext := []cfg{}
@@ -617,7 +630,7 @@ func main() {
 		mtus2 = quickMTUs()
 	} else {
 		mtus1 = quickMTUs()
-		mtus2 = []int{128, 129, 130, 255, 256, 257, 258, 508, 1280, 1500, 4000, 8192, 8800}
+		mtus2 = []int{128, 256, 257, 258, 508, 1280, 1500, 4000, 8192, 8800}
 	}
 	devOverride := false
 	if v := os.Getenv("VERIF_C10_MTUS"); v != "" { // development aid only: restrict both MTU lists
@@ -630,26 +643,39 @@ func main() {
 		}
 	}
 	type row struct {
-		mtu int
-		c   cfg
+		mtu   int
+		c     cfg
+		block int
 	}
 	var rows []row
 	for _, m := range mtus1 {
 		for _, c := range base {
-			rows = append(rows, row{m, c})
+			rows = append(rows, row{m, c, 1})
 		}
 	}
-	nb := len(rows)
 	for _, m := range mtus2 {
 		for _, c := range ext {
-			rows = append(rows, row{m, c})
+			rows = append(rows, row{m, c, 2})
 		}
 	}
+	// Cheapest rows first, so that a time cap costs as few rows as possible and always the same
+	// kind: rows without fragmentation (no frame for most sizes) come first, then the fragmenting
+	// rows by descending MTU (the number of frames per row is ~ 38.7e6 / payload per frame).
+	sort.SliceStable(rows, func(i, j int) bool {
+		a, b := rows[i], rows[j]
+		if a.c.fragOn != b.c.fragOn {
+			return !a.c.fragOn
+		}
+		if a.c.fragOn && a.mtu != b.mtu {
+			return a.mtu > b.mtu
+		}
+		return false
+	})
 	var tot caseStats
 	var totMu sync.Mutex
 	var shapes int64
 	rowDone := make([]bool, len(rows))
-	samples := &report.Samples{N: 6}
+	samples := &report.Samples{N: 12}
 	var maxExcess int64
 	doneRows, completeA := enum.Range(int64(len(rows)), start.Add(budgetA), func(i int64) {
 		r := rows[i]
@@ -675,35 +701,38 @@ func main() {
 				break
 			}
 		}
-		if (r.mtu == 1500 || r.mtu == 128) && (r.c.fragOn || (!r.c.ifi && r.c.tok == 0 && r.c.mark == 0)) {
+		if (r.mtu == 1500 || r.mtu == 128) && !r.c.ifi && ((r.c.tok == 0 && r.c.mark == 0) || (r.c.fragOn && r.c.tok == 1 && r.c.mark == 1)) {
 			samples.Offer(fmt.Sprintf("A: MTU=%d config=%s sizes 1..%d: %d one-frame, %d fragmented (%d distinct frame counts), %d dropped, %d frames",
 				r.mtu, r.c, maxPacket, st.nOne, st.nFrag, len(st.shapes), st.nDrop, st.nFrames))
 		}
 	})
-	// completed prefix of rows
-	prefix := 0
-	for prefix < len(rows) && rowDone[prefix] {
-		prefix++
-	}
-	mtuRange := func(l []int, k int) string { // first k MTUs of list l, all configurations each
-		if k <= 0 {
-			return "none"
+	// per block: which MTUs have all their configurations done
+	summarize := func(block int, list []int, nCfg int) string {
+		done := map[int]int{}
+		for i, r := range rows {
+			if r.block == block && rowDone[i] {
+				done[r.mtu]++
+			}
 		}
-		if k >= len(l) {
-			return fmt.Sprintf("all %d values (%d..%d)", len(l), l[0], l[len(l)-1])
+		full, minMissing := 0, -1
+		for _, m := range list {
+			if done[m] == nCfg {
+				full++
+			} else if m > minMissing {
+				minMissing = m
+			}
 		}
-		return fmt.Sprintf("the first %d of %d values (%d..%d)", k, len(l), l[0], l[k-1])
-	}
-	b1, b2 := prefix, 0
-	if b1 > nb {
-		b1, b2 = nb, prefix-nb
+		if full == len(list) {
+			return fmt.Sprintf("all %d values (%d..%d), all %d configurations each", len(list), list[0], list[len(list)-1], nCfg)
+		}
+		return fmt.Sprintf("%d of %d values complete with all %d configurations; every value above %d is complete (the fragmenting rows of the smaller MTUs are the most expensive and run last)", full, len(list), nCfg, minMissing)
 	}
 	const quickList = "128..160, 250..262, 508, 1280, 1400, 1452, 1500, 4000, 8192, 8780..8800"
 	covA := map[string]any{
-		"rows_total": len(rows), "rows_done": doneRows, "rows_done_prefix": prefix, "complete": completeA,
+		"rows_total": len(rows), "rows_done": doneRows, "complete": completeA,
 		"sizes":  fmt.Sprintf("1..%d (every size; Interest below %d, Data from %d, raw bytes below %d and at 255, 256 = no well-formed packet of that size exists)", maxPacket, minD, minD, minI),
-		"block1": map[string]any{"configurations": len(base), "what": "fragmentation on/off x incoming-face indication x PIT token x congestion mark", "mtu_list_size": len(mtus1), "mtus_completed": mtuRange(mtus1, b1/len(base))},
-		"block2": map[string]any{"configurations": len(ext), "what": "token only on output / only on input, link service's own congestion mark, 8-byte mark value (x the block-1 dimensions)", "mtu_list_size": len(mtus2), "mtus_completed": mtuRange(mtus2, b2/len(ext))},
+		"block1": map[string]any{"configurations": len(base), "what": "fragmentation on/off x incoming-face indication x PIT token x congestion mark", "mtu_list_size": len(mtus1), "mtus_completed": summarize(1, mtus1, len(base))},
+		"block2": map[string]any{"configurations": len(ext), "what": "token only on output / only on input, link service's own congestion mark, 8-byte mark value (x the block-1 dimensions)", "mtu_list_size": len(mtus2), "mtus_completed": summarize(2, mtus2, len(ext))},
 		"cases":  tot.nCases, "one_frame": tot.nOne, "fragmented": tot.nFrag, "dropped_no_frames": tot.nDrop, "frames": tot.nFrames,
 		"max_bytes_over_mtu_seen": maxExcess,
 	}
